@@ -2,6 +2,8 @@
 use vstd::prelude::*;
 use vstd::std_specs::hash::*;
 use vstd::std_specs::cmp::*;
+use vstd::std_specs::iter::IteratorSpec;
+use vstd::set_lib::*;
 use std::collections::HashSet;
 use std::hash::{Hash, Hasher};
 
@@ -65,6 +67,9 @@ broadcast use {trusted::axiom_filter_key_model, vstd::std_specs::hash::group_has
 
 //@include _shared/std_option_specs.rs
 
+//@include _shared/iter_step.rs
+//@include _shared/set_iter_lemmas.rs
+
 // ---- extracted ---------------------------------------------------------------------------------
 //@item core/src/bus_listener.rs enum BusListenerScope attr=derive(Clone,Copy)
 //@item broker/src/bus_listener.rs struct BusListener
@@ -121,6 +126,38 @@ impl BusListener {
         }
     //@end
 
+    // (`.iter().any(|&f| ..)` / `.iter().all(|f| ..)` desugared into the loops they are, normalisation N12): removing a filter
+    // recomputes both cached flags from the remaining set, so `flags_ok` is (re-)established whatever the flags were before
+    //@fn broker/src/bus_listener.rs BusListener::remove_filter iter-any-all
+        ensures
+            final(self).flags_ok(),
+            final(self).filters@ == old(self).filters@.remove(filter),
+            final(self).scope == old(self).scope,
+            final(self).conn_id == old(self).conn_id,
+    //@loop? 0 it
+        invariant
+            it.seq().no_duplicates(), it.seq().len() == self.filters@.len(),
+            forall|x: BusListenerFilter| self.filters@.contains(x) ==> #[trigger] it.seq().contains(&x),
+            __vp_any0 ==> self.filters@.contains(BusListenerFilter::Object(None)),
+            !__vp_any0 && self.filters@.contains(BusListenerFilter::Object(None))
+                ==> in_rest(it.seq(), it.index(), &BusListenerFilter::Object(None)),
+        ensures !__vp_any0 ==> it.index() == it.seq().len(),
+    //@ghost? loop-start 0
+        proof { lemma_iter_covers(it.seq(), self.filters@); lemma_iter_step(it.seq(), it.index()); }
+    //@loop? 1 it
+        invariant
+            it.seq().no_duplicates(), it.seq().len() == self.filters@.len(),
+            forall|x: BusListenerFilter| self.filters@.contains(x) ==> #[trigger] it.seq().contains(&x),
+            !__vp_all1 ==> exists|g: BusListenerFilter| self.filters@.contains(g) && !Self::is_specific_service(g),
+            __vp_all1 ==> forall|x: BusListenerFilter| #![trigger self.filters@.contains(x)]
+                self.filters@.contains(x) ==> Self::is_specific_service(x) || in_rest(it.seq(), it.index(), &x),
+        ensures __vp_all1 ==> it.index() == it.seq().len(),
+    //@ghost? loop-start 1
+        proof { lemma_iter_covers(it.seq(), self.filters@); lemma_iter_step(it.seq(), it.index()); assert(f == it.seq()[it.index()]); }
+    //@ghost? before `__vp_all1 = false;`
+        proof { assert(self.filters@.contains(*f)); assert(!Self::is_specific_service(*f)); }
+    //@end
+
     //@fn broker/src/bus_listener.rs BusListener::conn_id
         ensures *r == self.conn_id,
     //@end
@@ -145,6 +182,7 @@ impl BusListener {
             final(self).matches_all_objects == old(self).matches_all_objects,
             final(self).matches_specific_services == old(self).matches_specific_services,
             final(self).conn_id == old(self).conn_id,
+            final(self).flags_ok() == old(self).flags_ok(),
     //@end
 
     //@fn broker/src/bus_listener.rs BusListener::stop
@@ -156,6 +194,7 @@ impl BusListener {
             final(self).matches_all_objects == old(self).matches_all_objects,
             final(self).matches_specific_services == old(self).matches_specific_services,
             final(self).conn_id == old(self).conn_id,
+            final(self).flags_ok() == old(self).flags_ok(),
     //@end
 }
 
